@@ -282,3 +282,15 @@ def d7(ctx):
                         how = "`discarded += n` is an unchecked u32 addition (panic with overflow checks, wrap-around without)"
                     yield Ob(key_of("C20-D7", b.path, "wrapping-add"), ok, "%s: %s" % (b.name, "the addition saturates / is checked" if ok else how), ctx.loc(e))
     yield Ob(key_of("C20-D7", "crate", "sites"), n >= 3, "%d additions to `discarded` examined" % n, None)
+
+
+@rule("C20-D8", "C20", 2, "validate_segment only answers a question: nothing is written, counted or linked from it (the pop bodies ask it whether a remainder is worth "
+      "splitting off - when it is not, the remainder stays inside the allocation; an answer computed by try_new_segment would add that remainder to discarded "
+      "although nothing was released, and the bytes are given out again with the allocation)", also=("C10",))
+def d8(ctx):
+    for fl in FLAVOURS:
+        b = ctx.facts.one(r"^%s::Arena::validate_segment$" % fl)
+        ev, res = ctx.eval(b)
+        effs = [e for e in res.log if is_raw_write(e) or is_atomic_write(e) or is_heap_store(e) or (e["kind"] == "call" and re.search(r"::increase_discarded$", e["callee"]))]
+        effs += list(discarded_writes(res, fl))
+        yield Ob(key_of("C20-D8", b.path, "no-effect"), not effs, "validate_segment has no effect (%d found%s)" % (len(effs), (": " + short(effs[0].get("callee") or effs[0]["kind"], 60)) if effs else ""), b.loc())
